@@ -172,3 +172,114 @@ Example C10_calm_example : no_overlap wit_cf calm_example /\ causal wit_cf calm_
 Proof. exact calm_example_hyps. Qed.
 Example C10_refuting_run_overlaps : sched wit_cf no_overlap_step init [] wit_wire = false.
 Proof. exact wit_wire_overlap. Qed.
+
+(* ================================================================ strengthened statement (T10)
+   "A SECOND RESPONDER FOR THE SAME REQUEST ID".
+
+   (1) What the response object alone guarantees, for ANY handler behaviour -- any number of
+       handlers handed the same call, any order of arg writers / Flush / Close / SendSystemError
+       (no hypothesis on the handler labels at all): per id requested at most once the frames are
+           w ++ [Err; ...; Err]      with w a prefix of an accepted word,
+       the tail is empty unless a SendSystemError got past its guard after doneSending had run,
+       and nothing but error frames ever follows a terminal frame.  It does NOT guarantee the
+       grammar: InboundCallResponse.SendSystemError is guarded by response.err only, so a second
+       responder that rejects the call adds an error frame behind a complete response
+       (C10_two_responders_refuted; robustness gap, see DESIGN.md C10).
+   (2) Therefore the grammar rests on "exactly one responder per call, which completes the
+       response or sends one system error".  The dispatch decisions are REGENERATED from the Go
+       source on every run (Gen/GenDispatch.v: inbound.go dispatchInbound, handlers.go
+       userHandlerWithSkip.Handle / channelHandler.Handle / handlerMap.Handle, channel.go
+       NewChannel's choice of the root handler; relay.go handleLocalCallReq -- result constant and
+       responder per branch --, handleCallReq and getDestination) as TRACES of responder
+       invocations, proved equal to the hand model of Model/Dispatch.v, which never names two
+       responders.  An edit that drops a `return` after a handler invocation, swaps
+       _relayNoRelease / _relayShouldRelease in a branch, or sends an error frame and carries on
+       changes the generated trace and these proofs stop compiling. *)
+From Verif Require Import Gen.GenDispatch Gen.GenRelayAdmit Model.Dispatch Proofs.DispatchP Proofs.RespWireAnyP.
+
+Theorem C10_server_any_handler : forall prop ls st,
+  RespWire.run prop ls = Some st ->
+  forall id, (count_req id (requested st) <= 1)%nat ->
+    (exists w n, proj id (RespWire.sent st) = w ++ repeat Err n /\ wire_prefix_ok w = true /\
+                 (~ In id (misused st) -> n = O)) /\
+    (forall l1 k l2, proj id (RespWire.sent st) = l1 ++ k :: l2 -> terminal k = true ->
+                     forall x, In x l2 -> x = Err).
+Proof. exact respwire_any_handler. Qed.
+Print Assumptions C10_server_any_handler.
+
+(* two responders, each inside the quantifier when alone (one completes the response, one
+   sends one system error), handed the same call one after the other *)
+Theorem C10_two_responders_refuted :
+  handler_ok 7 false two_complete = true /\ handler_ok 7 false two_reject = true /\
+  (exists st, RespWire.run false (two_admit ++ two_complete ++ two_reject) = Some st /\
+              proj 7 (RespWire.sent st) = [Res false; Err] /\ wire_prefix_ok (proj 7 (RespWire.sent st)) = false) /\
+  (exists st, RespWire.run false (two_admit ++ two_reject ++ two_reject) = Some st /\
+              proj 7 (RespWire.sent st) = [Err; Err] /\ wire_prefix_ok (proj 7 (RespWire.sent st)) = false) /\
+  (exists st, RespWire.run false (two_admit ++ two_reject ++ [HResp 7; HArgWriter 7 1; HArgWriter 7 2; HArgWriter 7 3]) = Some st /\
+              proj 7 (RespWire.sent st) = [Err] /\
+              (exists c, get 7 (calls st) = Some c /\ g_rets c = [0; 1; 1; 1])).
+Proof. exact two_responders_refuted. Qed.
+Print Assumptions C10_two_responders_refuted.
+
+(* server dispatch: the generated traces expand to the hand model; exactly one responder for
+   every option combination (root handler chosen by NewChannel from Handler /
+   SkipHandlerMethods), service, method; with SkipHandlerMethods the skipped methods go to the
+   native handlers ONLY and every other method to the alternate handler ONLY *)
+Theorem C10_dispatch_tie : forall e,
+  gx_leaves e = dp_leaves e /\ (exists lf, gx_leaves e = [lf]) /\
+  known_markers (dispatchTail (d_is_tchannel e) (d_has_internal e) []) [1; 2] = true /\
+  known_markers (skipDispatch (d_skipped e) []) [3; 4] = true /\
+  known_markers (channelDispatch []) [5] = true /\
+  known_markers (handlerMapDispatch (d_registered e) []) [6; 7] = true.
+Proof. exact (fun e => conj (dispatch_tie e) (conj (dispatch_gen_single e) (dispatch_markers_known e))). Qed.
+Print Assumptions C10_dispatch_tie.
+
+Theorem C10_root_handler_tie : forall has_skip has_handler,
+  chanRootKind has_skip has_handler = dp_root_code (dp_root_of has_skip has_handler).
+Proof. exact chan_root_tie. Qed.
+
+Theorem C10_skip_dispatch : forall e, d_root e = DpSkip -> d_is_tchannel e && d_has_internal e = false ->
+  gx_leaves e = if d_skipped e then (if d_registered e then [DpMethod] else [DpNoHandler]) else [DpUserHandler].
+Proof. exact dispatch_skip_spec. Qed.
+Print Assumptions C10_skip_dispatch.
+
+(* the grammar under dispatch: the handler API calls made on the call are those of the
+   responders the (generated) dispatch names, each of which alone obeys the discipline *)
+Theorem C10_server_grammar_dispatch : forall prop ls st e beh id,
+  RespWire.run prop ls = Some st -> (req_count id ls <= 1)%nat ->
+  dp_hlabels id ls = concat (map beh (gx_leaves e)) ->
+  (forall lf, handler_ok id false (beh lf) = true) ->
+    wire_prefix_ok (proj id (RespWire.sent st)) = true /\
+    (forall l1 k l2, proj id (RespWire.sent st) = l1 ++ k :: l2 -> terminal k = true -> l2 = []) /\
+    (length (filter terminal (proj id (RespWire.sent st))) <= 1)%nat.
+Proof. exact respwire_grammar_dispatch. Qed.
+Print Assumptions C10_server_grammar_dispatch.
+
+(* relay: for every combination of what handleCallReq's callees return, the generated traces
+   (handleLocalCallReq's result AND responders, the first statement and the admission part of
+   handleCallReq, getDestination with the results tied for C03) expand to the hand model, which
+   names at most one responder: an error frame is never followed by relaying, a call to a
+   service of RelayLocalHandlers is answered by the relay channel itself -- one error frame
+   when its request is fragmented -- and is "handled", i.e. not relayed *)
+Theorem C10_relay_dispatch_tie : forall e,
+  gx_relay e = rl_responders e /\ (length (gx_relay e) <= 1)%nat /\
+  known_markers (gx_relay_trace e) relay_markers = true.
+Proof. exact (fun e => conj (relay_tie e) (conj (relay_gen_at_most_one e) (relay_markers_known e))). Qed.
+Print Assumptions C10_relay_dispatch_tie.
+
+Theorem C10_relay_local_handled : forall e,
+  relayLocalHandled (r_is_local e) (r_fragmented e) = r_is_local e /\
+  (r_is_local e = true -> gx_relay e = if r_fragmented e then [RlErrFragmented] else [RlLocal]).
+Proof. exact relay_local_spec. Qed.
+Print Assumptions C10_relay_local_handled.
+
+(* Non-vacuity: Handler + SkipHandlerMethods, a skipped registered method: one native responder;
+   a fragmented call to a local service of the relay: one error frame, no relaying *)
+Example C10_dispatch_example :
+  gx_leaves {| d_root := dp_root_of true true; d_is_tchannel := false; d_has_internal := false;
+               d_skipped := true; d_registered := true |} = [DpMethod] /\
+  gx_relay {| r_is_local := true; r_fragmented := true; r_start_err := false; r_drop := false;
+              r_is_protocol := false; r_can_handle := true; r_found := false; r_tomb := false;
+              r_dest_ok := true; r_conn_ok := true; r_remote_can := true; r_appends := false;
+              r_sent := true |} = [RlErrFragmented].
+Proof. split; reflexivity. Qed.
